@@ -98,29 +98,42 @@ theorem TokensIn.append {ts1 ts2 : List Tok} {lo mid hi : Nat}
     obtain ⟨b, h3, h4, h5⟩ := h2
     exact ⟨b, ih h3, h4, h5⟩
 
+/-- `l.bases` is parallel to `l.contexts`: what makes `l.bases[last]` of `case tokenEnd` safe -/
+def Bal (st : St) : Prop := st.bases.length = st.contexts.length
+
 /-- `st'` extends `st`: the lexer did not move back, stays inside the text, and the tokens it
 emitted in between lie between the two positions -/
 def Ext (E : Env) (st st' : St) : Prop :=
-  st'.base ≤ E.text.length ∧ ∃ new, st'.toks = new ++ st.toks ∧ TokensIn new st.base st'.base
+  st'.base ≤ E.text.length ∧ (∃ new, st'.toks = new ++ st.toks ∧ TokensIn new st.base st'.base) ∧
+    (Bal st → Bal st')
 
 theorem Ext.base_le {E : Env} {st st' : St} (h : Ext E st st') : st.base ≤ st'.base := by
-  obtain ⟨_, new, _, h3⟩ := h; exact h3.le
+  obtain ⟨_, ⟨new, _, h3⟩, _⟩ := h; exact h3.le
 
 theorem Ext.le_len {E : Env} {st st' : St} (h : Ext E st st') : st'.base ≤ E.text.length := h.1
 
 theorem Ext.refl {E : Env} {st : St} (h : st.base ≤ E.text.length) : Ext E st st :=
-  ⟨h, [], rfl, Nat.le_refl _⟩
+  ⟨h, ⟨[], rfl, Nat.le_refl _⟩, id⟩
 
 theorem Ext.trans {E : Env} {a b c : St} (h1 : Ext E a b) (h2 : Ext E b c) : Ext E a c := by
-  obtain ⟨_, n1, e1, t1⟩ := h1
-  obtain ⟨l2, n2, e2, t2⟩ := h2
-  exact ⟨l2, n2 ++ n1, by rw [e2, e1, List.append_assoc], t1.append t2⟩
+  obtain ⟨_, ⟨n1, e1, t1⟩, b1⟩ := h1
+  obtain ⟨l2, ⟨n2, e2, t2⟩, b2⟩ := h2
+  exact ⟨l2, ⟨n2 ++ n1, by rw [e2, e1, List.append_assoc], t1.append t2⟩, b2 ∘ b1⟩
+
+theorem Ext.bal {E : Env} {st st' : St} (h : Ext E st st') (hb : Bal st) : Bal st' := h.2.2 hb
 
 /-- a state that differs from `st` only in fields other than `base` and `toks` -/
-theorem Ext.of_eq {E : Env} {a b c : St} (h : Ext E a b) (hb : c.base = b.base) (ht : c.toks = b.toks) :
+theorem Ext.of_eq {E : Env} {a b c : St} (h : Ext E a b) (hb : c.base = b.base) (ht : c.toks = b.toks)
+    (hc : c.contexts = b.contexts := by rfl) (hs : c.bases = b.bases := by rfl) :
     Ext E a c := by
-  obtain ⟨l, n, e, t⟩ := h
-  exact ⟨hb ▸ l, n, ht ▸ e, hb ▸ t⟩
+  obtain ⟨l, ⟨n, e, t⟩, bl⟩ := h
+  exact ⟨hb ▸ l, ⟨n, ht ▸ e, hb ▸ t⟩, fun h0 => by have := bl h0; unfold Bal at *; rw [hc, hs]; exact this⟩
+
+/-- a state with the `base` and `toks` of `b` whose stacks stay parallel if `b`'s are -/
+theorem Ext.of_bal {E : Env} {a b c : St} (h : Ext E a b) (hb : c.base = b.base) (ht : c.toks = b.toks)
+    (hbal : Bal b → Bal c) : Ext E a c := by
+  obtain ⟨l, ⟨n, e, t⟩, bl⟩ := h
+  exact ⟨hb ▸ l, ⟨n, ht ▸ e, hb ▸ t⟩, fun h0 => hbal (bl h0)⟩
 
 theorem Ext.srcLen_le {E : Env} {st st' : St} (h : Ext E st st') : srcLen E st' ≤ srcLen E st := by
   have := h.base_le; unfold srcLen; omega
@@ -130,7 +143,7 @@ theorem Ext.srcLen_le {E : Env} {st st' : St} (h : Ext E st st') : srcLen E st' 
 theorem skip_ok {E : Env} {st : St} {k : Nat} (h : k ≤ srcLen E st) (hb : st.base ≤ E.text.length) :
     ∃ st', skip E st k = .ok st' ∧ st' = { st with base := st.base + k } ∧ Ext E st st' := by
   refine ⟨{ st with base := st.base + k }, by unfold skip; simp [h], rfl, ?_⟩
-  refine ⟨?_, [], rfl, ?_⟩
+  refine ⟨?_, ⟨[], rfl, ?_⟩, id⟩
   · show st.base + k ≤ _; unfold srcLen at h; omega
   · show st.base ≤ st.base + k; omega
 
@@ -146,7 +159,7 @@ theorem emitAt_ok {E : Env} {st : St} {line col typ n : Nat} (h : n ≤ srcLen E
   have hn : ¬ srcLen E st < n := by omega
   simp only [hn, if_false]
   refine ⟨_, rfl, ?_, rfl, rfl, rfl, rfl, rfl, rfl, rfl, rfl, rfl, ?_⟩
-  · refine ⟨?_, [_], rfl, st.base, Nat.le_refl _, Nat.le_refl _, ?_⟩
+  · refine ⟨?_, ⟨[_], rfl, st.base, Nat.le_refl _, Nat.le_refl _, ?_⟩, id⟩
     · show st.base + n ≤ _; unfold srcLen at h; omega
     · constructor
       · intro hpos
